@@ -113,7 +113,7 @@ def build_coq(props_file):
             os.remove(os.path.join(COQ, vo))
         except FileNotFoundError:
             pass
-        rc, out = sh("timeout 1500 make -j%d %s" % (NPROC, vo), cwd=COQ, timeout=1600)
+        rc, out = sh("ulimit -v 16000000; timeout 1500 make -j%d %s" % (NPROC, vo), cwd=COQ, timeout=1600)
         open(outp, "w").write(out)
     text = open(src).read()
     theorems = re.findall(r"^\s*(?:Theorem|Example|Corollary)\s+(\w+)", text, re.M)
@@ -159,14 +159,14 @@ def build_driver():
     """(Re)builds the extracted model and the OCaml driver if stale."""
     ensure_coq_makefile()
     with Lock("coq"):
-        rc, out = sh("timeout 1500 make -j%d theories/Extract/Extract.vo" % NPROC, cwd=COQ, timeout=1600)
+        rc, out = sh("ulimit -v 16000000; timeout 1500 make -j%d theories/Extract/Extract.vo" % NPROC, cwd=COQ, timeout=1600)
         if rc != 0:
             raise RuntimeError("extraction failed:\n" + out[-3000:])
         srcs = [os.path.join(OCAML, f) for f in ("model.ml", "conv.ml", "driver.ml")]
         if not os.path.exists(os.path.join(OCAML, "model.ml")):
             # Extract.vo is fresh but model.ml was removed: force re-extraction
             os.remove(os.path.join(COQ, "theories/Extract/Extract.vo"))
-            rc, out = sh("timeout 1500 make -j%d theories/Extract/Extract.vo" % NPROC, cwd=COQ, timeout=1600)
+            rc, out = sh("ulimit -v 16000000; timeout 1500 make -j%d theories/Extract/Extract.vo" % NPROC, cwd=COQ, timeout=1600)
             if rc != 0:
                 raise RuntimeError("extraction failed:\n" + out[-3000:])
         if (not os.path.exists(DRIVER_BIN)) or any(os.path.getmtime(s) > os.path.getmtime(DRIVER_BIN) for s in srcs):
